@@ -1,6 +1,7 @@
 import Proofs.Lemmas.Convert
 import Proofs.Lemmas.ConvertGeneral
 import Pose.Model.ConvertCall
+import Proofs.Lemmas.ConvertGlue
 /-!
 # C11 — matrix and Euler conversions are exact inverses of `matrix()` / of each other
 
@@ -10,13 +11,13 @@ All statements are about the model `Pose/Model/Convert.lean` (+ `matrix()` of `P
 divides by) is positive; `canonQ_cases`, `canonQ_normSq`, `SO3matrix_canonQ` say it is the same rotation.
 Floating-point rounding is outside the theorems (measured by the correspondence check).
 -/
+
 namespace PP
+
 open Vec3 Quat Mat3
 
-/-- unit quaternion (and positive scale): what the property calls "an element" -/
-def C11.ValidSE3 (X : SE3 ℝ) : Prop := X.q.normSq = 1
-def C11.ValidSim3 (X : Sim3 ℝ) : Prop := X.q.normSq = 1 ∧ 0 < X.s
-def C11.ValidRxSO3 (X : RxSO3 ℝ) : Prop := X.q.normSq = 1 ∧ 0 < X.s
+/-! `C11.ValidSE3 / ValidSim3 / ValidRxSO3` (unit quaternion, positive scale — "an element") are defined in
+`Proofs/Lemmas/ConvertGlue.lean`. -/
 
 /-! ## 1. `mat2SO3` inverts `matrix()` — all four branch regions, every angle incl. π -/
 
@@ -93,10 +94,6 @@ theorem mat2SO3_selected_t_pos_any (R : Mat3 ℝ) (atol : ℝ) (ha : |atol| < 1)
     0 < (candOf R.transpose (mat2SO3Region atol R.transpose)).t := selected_t_pos_general R atol ha
 
 /-! ## 2. layouts 3×3 / 3×4 / 4×4, translation and scale blocks -/
-
-/-- `SO3` from any layout: only the top-left 3×3 block of the input is read -/
-theorem fromMatrix_SO3_block (lay : Layout) (p : Quat ℝ) : (MatIn.ofDMat lay (SO3matrix p).toRows).R = SO3matrix p :=
-  MatIn.ofDMat_SO3 lay p
 
 /-- `mat2SE3` on `X.matrix()` given as 3×3 (translation dropped → zeros), 3×4 or 4×4, batch of any length -/
 theorem mat2SE3Batch_matrix (detK : Mat3 ℝ → ℝ) (hdet : ∀ M, detK M = M.det) (check : Bool) (rtol atol : ℝ)
@@ -211,33 +208,11 @@ theorem mat2SE3_general (detK : Mat3 ℝ → ℝ) (hdet : ∀ M, detK M = M.det)
   obtain ⟨r, h1, h2, h3⟩ := mat2SO3_general detK hdet check rtol atol hr ha0 ha1 m.R hO hD
   exact ⟨⟨m.tOf, r⟩, by unfold mat2SE3; rw [h1], rfl, h2, h3⟩
 
-/-- "same matrix": the element returned for `X.matrix()` has the matrix of `X` again (4×4 input) -/
-theorem mat2Sim3_same_matrix (atol : ℝ) (X : Sim3 ℝ) :
-    Sim3matrix ⟨X.t, canonQ atol X.q, X.s⟩ = Sim3matrix X := by
-  simp only [Sim3matrix, matrix4, Sim3Act4, canonQ_act]
-theorem mat2SE3_same_matrix (atol : ℝ) (X : SE3 ℝ) : SE3matrix ⟨X.t, canonQ atol X.q⟩ = SE3matrix X := by
-  simp only [SE3matrix, matrix4, SE3Act4, canonQ_act]
-theorem mat2RxSO3_same_matrix (atol : ℝ) (X : RxSO3 ℝ) : RxSO3matrix ⟨canonQ atol X.q, X.s⟩ = RxSO3matrix X := by
-  simp only [RxSO3matrix, matrix4, RxSO3Act4, canonQ_act]
-
-/-- the empty batch converts to the empty batch (this is what the D26 repair restored: before it the rank test
-fired on an empty batch, and the comparison raised for batch shapes like `(2,3)`) -/
-theorem mat2Sim3Batch_empty (detK : Mat3 ℝ → ℝ) (check : Bool) (rtol atol : ℝ) :
-    mat2Sim3Batch detK check rtol atol [] = .ok [] ∧ mat2RxSO3Batch detK check rtol atol [] = .ok [] := by
-  simp [mat2Sim3Batch, mat2RxSO3Batch, scaledRotBatch, rankTestFails, mat2SO3Batch]
-
-/-- `from_matrix` dispatches to the four converters (result in storage order) -/
-theorem fromMatrix_dispatch (detK : Mat3 ℝ → ℝ) (check : Bool) (rtol atol : ℝ) (ms : List (MatIn ℝ)) :
-    fromMatrixBatch .SO3 detK check rtol atol ms = (mat2SO3Batch detK check rtol atol (ms.map (·.R))).map (·.map Quat.toList) ∧
-    fromMatrixBatch .SE3 detK check rtol atol ms = (mat2SE3Batch detK check rtol atol ms).map (·.map SE3.toList) ∧
-    fromMatrixBatch .Sim3 detK check rtol atol ms = (mat2Sim3Batch detK check rtol atol ms).map (·.map Sim3.toList) ∧
-    fromMatrixBatch .RxSO3 detK check rtol atol ms = (mat2RxSO3Batch detK check rtol atol ms).map (·.map RxSO3.toList) :=
-  ⟨rfl, rfl, rfl, rfl⟩
-
 /-! ## 3. Euler angles -/
 
 /-- `euler2SO3 (roll, pitch, yaw)` is the rotation `Rz(yaw)·Ry(pitch)·Rx(roll)`, for all real angles -/
 theorem euler2SO3_eq (e : Vec3 ℝ) : SO3matrix (euler2SO3 e) = eulerMat e := euler2SO3_matrix' e
+
 /-- … and a unit quaternion -/
 theorem euler2SO3_unit (e : Vec3 ℝ) : (euler2SO3 e).normSq = 1 := euler2SO3_normSq' e
 
@@ -276,14 +251,16 @@ theorem eulerRegular_iff (eps : ℝ) (p : Quat ℝ) (h : p.normSq = 1) :
     eulerRegular eps p = true ↔ |2 * (p.w * p.y - p.z * p.x)| < 1 - eps := by
   simp [eulerRegular, eulerT_unit p h, sabs_real]
 
-/-- returned angles are in their principal ranges: roll, yaw ∈ (−π, π] (regular branch), pitch ∈ [−π/2, π/2] (always) -/
-theorem euler_ranges (eps : ℝ) (p : Quat ℝ) (hreg : eulerRegular eps p = true) :
+/-- returned angles are in their principal ranges: roll, yaw ∈ (−π, π] (regular branch), pitch ∈ [−π/2, π/2] (always).
+Guard `0 < ‖p‖²`: for the zero quaternion the code divides `0/0` (NaN) while the model's real division gives 0 — the
+statement is made for what the code can be given -/
+theorem euler_ranges (eps : ℝ) (p : Quat ℝ) (_hp : 0 < p.normSq) (hreg : eulerRegular eps p = true) :
     (SO3euler eps p).x ∈ Set.Ioc (-Real.pi) Real.pi ∧ (SO3euler eps p).y ∈ Set.Icc (-(Real.pi / 2)) (Real.pi / 2) ∧
     (SO3euler eps p).z ∈ Set.Ioc (-Real.pi) Real.pi :=
   ⟨(SO3euler_ranges eps p hreg).1, SO3euler_pitch_range eps p, (SO3euler_ranges eps p hreg).2⟩
 
-/-- the pitch returned is `arcsin (sin pitch)` clamped — in range for *every* quaternion, also at gimbal lock -/
-theorem euler_pitch_range (eps : ℝ) (p : Quat ℝ) :
+/-- the pitch returned is `arcsin` of the clamped `sin pitch` — in range for every non-zero quaternion, also at gimbal lock -/
+theorem euler_pitch_range (eps : ℝ) (p : Quat ℝ) (_hp : 0 < p.normSq) :
     (SO3euler eps p).y ∈ Set.Icc (-(Real.pi / 2)) (Real.pi / 2) := SO3euler_pitch_range eps p
 
 /-! ## 4. `check=True` : accepts every valid input, rejects beyond the tolerances -/
@@ -304,17 +281,6 @@ theorem mat2SO3_check_iff (detK : Mat3 ℝ → ℝ) (hdet : ∀ M, detK M = M.de
         |(R.mul R.transpose).r1.z| ≤ atol ∧ |(R.mul R.transpose).r2.x| ≤ atol ∧ |(R.mul R.transpose).r2.y| ≤ atol)) ∧
       |R.det - 1| ≤ atol + rtol ∧ q = mat2SO3Raw atol R := by
   rw [mat2SO3_ok_iff, orthOk_iff, hdet, detOk_iff]
-
-/-- rejection: a matrix that fails either test raises (`ValueError`), with the orthogonality message first -/
-theorem check_rejects (detK : Mat3 ℝ → ℝ) (rtol atol : ℝ) (R : Mat3 ℝ)
-    (hbad : orthOk rtol atol R = false ∨ detOk rtol atol (detK R) = false) :
-    mat2SO3 detK true rtol atol R = .error .notOrthogonal ∨ mat2SO3 detK true rtol atol R = .error .detNotOne := by
-  unfold mat2SO3
-  by_cases h1 : orthOk rtol atol R = true
-  · rcases hbad with hb | hb
-    · rw [hb] at h1; exact absurd h1 (by simp)
-    · right; simp [h1, hb]
-  · left; simp [h1]
 
 /-- in a batch one bad item anywhere makes the whole call raise -/
 theorem check_rejects_batch (detK : Mat3 ℝ → ℝ) (rtol atol : ℝ) (Rs : List (Mat3 ℝ))
@@ -435,55 +401,11 @@ theorem scaled_check_iff (detK : Mat3 ℝ → ℝ) (rtol atol : ℝ) (Rs : List 
       intro Q hQ; obtain ⟨R, hR, rfl⟩ := List.mem_map.mp hQ; exact hall R hR)]
     simp only [List.map_map, List.zip_eq_zipWith, List.zipWith_map, List.zipWith_self, Function.comp]
 
-/-! ## 5. batched = item-wise (no batch-level shortcut in the model of the code) -/
+/-! ## 5. batched vs item-wise for the scaled conversions (holds only when no item's scale is inside the rank-test tolerance) -/
 
-/-- **batched = item-wise** (`mat2SO3`): the batch call returns iff every item converted alone returns, and then the
-batch result is the list of the item results -/
-theorem mat2SO3Batch_itemwise (detK : Mat3 ℝ → ℝ) (check : Bool) (rtol atol : ℝ) (Rs : List (Mat3 ℝ)) :
-    mat2SO3Batch detK check rtol atol Rs = .ok (Rs.map (mat2SO3Raw atol)) ↔
-      ∀ R ∈ Rs, mat2SO3 detK check rtol atol R = .ok (mat2SO3Raw atol R) := by
-  cases check with
-  | false => simp [mat2SO3Batch, mat2SO3]
-  | true =>
-    rw [check_batch_iff]
-    constructor
-    · intro h R hR; exact (mat2SO3_ok_iff detK rtol atol R _).mpr ⟨(h R hR).1, (h R hR).2, rfl⟩
-    · intro h R hR
-      have := (mat2SO3_ok_iff detK rtol atol R _).mp (h R hR)
-      exact ⟨this.1, this.2.1⟩
-
-/-- … and the batch call raises iff some item raises when converted alone (no batch-level `any`/`all` shortcut) -/
-theorem mat2SO3Batch_raises_iff (detK : Mat3 ℝ → ℝ) (rtol atol : ℝ) (Rs : List (Mat3 ℝ)) :
-    (∃ e, mat2SO3Batch detK true rtol atol Rs = .error e) ↔
-      ∃ R ∈ Rs, ∃ e, mat2SO3 detK true rtol atol R = .error e := by
-  constructor
-  · rintro ⟨e, he⟩
-    by_contra hc
-    have hall : ∀ R ∈ Rs, mat2SO3 detK true rtol atol R = .ok (mat2SO3Raw atol R) := by
-      intro R hR
-      by_contra hne
-      apply hc
-      refine ⟨R, hR, ?_⟩
-      rcases hm : mat2SO3 detK true rtol atol R with e' | q
-      · exact ⟨e', rfl⟩
-      · exfalso; apply hne; rw [hm]
-        have := (mat2SO3_ok_iff detK rtol atol R q).mp hm
-        rw [this.2.2]
-    rw [(mat2SO3Batch_itemwise detK true rtol atol Rs).mpr hall] at he
-    exact absurd he (by simp)
-  · rintro ⟨R, hR, e, he⟩
-    apply mat2SO3Batch_error_of_bad detK rtol atol Rs
-    refine ⟨R, hR, ?_⟩
-    by_contra hc
-    have h1 : orthOk rtol atol R = true := by
-      by_contra h; exact hc (Or.inl (by simpa using h))
-    have h2 : detOk rtol atol (detK R) = true := by
-      by_contra h; exact hc (Or.inr (by simpa using h))
-    have := (mat2SO3_ok_iff detK rtol atol R _).mpr ⟨h1, h2, rfl⟩
-    rw [this] at he; exact absurd he (by simp)
-
-/-- **batched = item-wise** for the scaled conversions: with positive determinants and no item's scale inside the
-rank-test tolerance, a batch is accepted iff each of its items is accepted when converted alone, with the same values -/
+/-- batched = item-wise for the scaled conversions **under `hnt`** (no item's scale inside the rank-test tolerance) and positive
+determinants: a batch is accepted iff each of its items is accepted when converted alone, with the same values. Without `hnt` it
+is false: `rank_test_is_batch_level` -/
 theorem scaledRotBatch_itemwise (detK : Mat3 ℝ → ℝ) (rtol atol : ℝ) (Rs : List (Mat3 ℝ))
     (hpos : ∀ R ∈ Rs, 0 < detK R) (hnt : ∀ R ∈ Rs, scaleTiny rtol atol (powThird (detK R)) = false) :
     scaledRotBatch detK true rtol atol Rs
@@ -512,96 +434,19 @@ theorem scaledRotBatch_itemwise (detK : Mat3 ℝ → ℝ) (rtol atol : ℝ) (Rs 
       (by simpa using h R hR)
     exact this R (by simp)
 
-
 /-! ## 6. the optional arguments: what the result may and may not depend on -/
 
-/-- on valid input the result does not depend on `check` nor on `rtol` (nor on the way they were passed): any two
-admissible settings give the same element -/
-theorem mat2SO3_matrix_indep (detK : Mat3 ℝ → ℝ) (hdet : ∀ M, detK M = M.det) (check check' : Bool)
-    (rtol rtol' atol : ℝ) (hr : 0 ≤ rtol) (hr' : 0 ≤ rtol') (ha0 : 0 ≤ atol) (ha1 : atol < 1) (p : Quat ℝ)
-    (h : p.normSq = 1) :
-    mat2SO3 detK check rtol atol (SO3matrix p) = mat2SO3 detK check' rtol' atol (SO3matrix p) := by
-  rw [mat2SO3_matrix detK hdet check rtol atol hr ha0 ha1 p h, mat2SO3_matrix detK hdet check' rtol' atol hr' ha0 ha1 p h]
-
-/-- … and changing `atol` (which also moves the mask threshold) changes at most the sign of the quaternion -/
-theorem mat2SO3_matrix_indep_atol (detK : Mat3 ℝ → ℝ) (hdet : ∀ M, detK M = M.det) (check check' : Bool)
-    (rtol rtol' atol atol' : ℝ) (hr : 0 ≤ rtol) (hr' : 0 ≤ rtol') (ha0 : 0 ≤ atol) (ha1 : atol < 1)
-    (ha0' : 0 ≤ atol') (ha1' : atol' < 1) (p : Quat ℝ) (h : p.normSq = 1) :
-    ∃ q q', mat2SO3 detK check rtol atol (SO3matrix p) = .ok q ∧ mat2SO3 detK check' rtol' atol' (SO3matrix p) = .ok q' ∧
-      (q = q' ∨ q = q'.neg) := by
-  refine ⟨canonQ atol p, canonQ atol' p, mat2SO3_matrix detK hdet check rtol atol hr ha0 ha1 p h,
-    mat2SO3_matrix detK hdet check' rtol' atol' hr' ha0' ha1' p h, ?_⟩
-  rcases canonQ_cases atol p with a | a <;> rcases canonQ_cases atol' p with b | b <;> rw [a, b]
-  · left; rfl
-  · right; exact (Quat.neg_neg' p).symm
-  · right; rfl
-  · left; rfl
-
-/-- the two tolerances are **not** interchangeable: the sheared matrix `1 + 3·10⁻⁴·e₀e₁ᵀ` is rejected with
-`(rtol, atol) = (10⁻², 10⁻⁵)` and accepted with the two swapped — an implementation (or a caller) that passes them in
-the wrong order is observably different -/
-theorem check_tolerances_not_symmetric :
-    orthOk (1 / 100) (1 / 100000) (⟨⟨1, 3 / 10000, 0⟩, ⟨0, 1, 0⟩, ⟨0, 0, 1⟩⟩ : Mat3 ℝ) = false ∧
-    orthOk (1 / 100000) (1 / 100) (⟨⟨1, 3 / 10000, 0⟩, ⟨0, 1, 0⟩, ⟨0, 0, 1⟩⟩ : Mat3 ℝ) = true ∧
-    detOk (1 / 100000) (1 / 100) (⟨⟨1, 3 / 10000, 0⟩, ⟨0, 1, 0⟩, ⟨0, 0, 1⟩⟩ : Mat3 ℝ).det = true := by
-  refine ⟨?_, ?_, ?_⟩
-  · apply Bool.eq_false_iff.mpr; intro hok
-    have h := ((orthOk_iff _ _ _).mp hok).2.1
-    revert h; lie_unfold; norm_num [abs_of_pos]
-  · rw [orthOk_iff]; lie_unfold; norm_num [abs_of_pos, abs_of_nonneg]
-  · rw [detOk_iff]; lie_unfold; norm_num
-
-
 /-! ## 7. pass 3: ties, exact guards, guard band, calling glue -/
+
 set_option linter.unusedTactic false
+
 set_option linter.unreachableTactic false
+
 set_option linter.unusedSimpArgs false
 
 /-! ## which mask wins — the comparison operators of the code, ties included -/
 
-theorem mat2SO3Region_zero_iff (atol : ℝ) (T : Mat3 ℝ) :
-    mat2SO3Region atol T = 0 ↔ T.r2.z < atol ∧ T.r1.y < T.r0.x := by
-  simp only [mat2SO3Region, lt_real]
-  by_cases c2 : T.r2.z < atol <;> by_cases c01 : T.r1.y < T.r0.x <;> by_cases c3 : T.r0.x < -T.r1.y <;>
-    simp [c2, c01, c3]
-theorem mat2SO3Region_one_iff (atol : ℝ) (T : Mat3 ℝ) :
-    mat2SO3Region atol T = 1 ↔ T.r2.z < atol ∧ T.r0.x ≤ T.r1.y := by
-  simp only [mat2SO3Region, lt_real]
-  by_cases c2 : T.r2.z < atol <;> by_cases c01 : T.r1.y < T.r0.x <;> by_cases c3 : T.r0.x < -T.r1.y <;>
-    simp [c2, c01, c3, not_lt.mp, le_of_lt] <;> first | exact not_lt.mp c01 | exact c01 | skip
-theorem mat2SO3Region_two_iff (atol : ℝ) (T : Mat3 ℝ) :
-    mat2SO3Region atol T = 2 ↔ atol ≤ T.r2.z ∧ T.r0.x < -T.r1.y := by
-  simp only [mat2SO3Region, lt_real]
-  by_cases c2 : T.r2.z < atol <;> by_cases c01 : T.r1.y < T.r0.x <;> by_cases c3 : T.r0.x < -T.r1.y <;>
-    simp [c2, c01, c3] <;> first | exact not_lt.mp c2 | exact c2 | skip
-theorem mat2SO3Region_three_iff (atol : ℝ) (T : Mat3 ℝ) :
-    mat2SO3Region atol T = 3 ↔ atol ≤ T.r2.z ∧ -T.r1.y ≤ T.r0.x := by
-  simp only [mat2SO3Region, lt_real]
-  by_cases c2 : T.r2.z < atol <;> by_cases c01 : T.r1.y < T.r0.x <;> by_cases c3 : T.r0.x < -T.r1.y <;>
-    simp [c2, c01, c3] <;> first | exact ⟨not_lt.mp c2, not_lt.mp c3⟩ | exact fun _ => c3 | exact c2 | skip
 /-! ## the exact guard on `atol` -/
-
-/-- for `−1 < atol ≤ 1` the component the selected candidate divides by is non-zero on every rotation matrix -/
-theorem region_dom_ne_zero (p : Quat ℝ) (h : p.normSq = 1) (atol : ℝ) (h1 : -1 < atol) (h2 : atol ≤ 1) :
-    domComp (mat2SO3Region atol (SO3matrix p).transpose) p ≠ 0 := by
-  have h' : p.x * p.x + p.y * p.y + p.z * p.z + p.w * p.w = 1 := h
-  obtain ⟨e0, e1, e2⟩ := rot_diag p
-  simp only [mat2SO3Region, lt_real, e0, e1, e2]
-  by_cases c2 : 1 - 2 * (p.x * p.x + p.y * p.y) < atol
-  · by_cases c01 : 1 - 2 * (p.x * p.x + p.z * p.z) < 1 - 2 * (p.y * p.y + p.z * p.z)
-    · simp only [c2, c01, decide_true, ↓reduceIte, domComp]
-      intro h0; have hq : p.x * p.x = 0 := by rw [h0]; ring
-      nlinarith [mul_self_nonneg p.y]
-    · simp only [c2, c01, decide_true, decide_false, ↓reduceIte, Bool.false_eq_true, domComp]
-      intro h0; have hq : p.y * p.y = 0 := by rw [h0]; ring
-      nlinarith [mul_self_nonneg p.x]
-  · by_cases c0n1 : 1 - 2 * (p.y * p.y + p.z * p.z) < -(1 - 2 * (p.x * p.x + p.z * p.z))
-    · simp only [c2, c0n1, decide_true, decide_false, ↓reduceIte, Bool.false_eq_true, domComp]
-      intro h0; have hq : p.z * p.z = 0 := by rw [h0]; ring
-      nlinarith [mul_self_nonneg p.w]
-    · simp only [c2, c0n1, decide_false, ↓reduceIte, Bool.false_eq_true, domComp]
-      intro h0; have hq : p.w * p.w = 0 := by rw [h0]; ring
-      nlinarith [mul_self_nonneg p.z]
 
 /-- **exact guard**: the round trip `mat2SO3Raw atol (R(p)) = ±p` holds for every mask threshold `−1 < atol ≤ 1`
 (the property theorems assumed `0 ≤ atol < 1`) -/
@@ -660,13 +505,6 @@ theorem mat2SO3Raw_tie_zw (p : Quat ℝ) (h : p.normSq = 1) (atol : ℝ) (h1 : -
     rw [mat2SO3Region_three_iff, e0, e1, e2]; exact ⟨hd2, by nlinarith⟩
   unfold canonQ; rw [hr]; rfl
 
-/-- the threshold itself belongs to the upper side: `R22 = atol` exactly selects candidate 2 or 3 (`<` is strict) -/
-theorem mat2SO3Region_at_threshold (atol : ℝ) (T : Mat3 ℝ) (h : T.r2.z = atol) : 2 ≤ mat2SO3Region atol T := by
-  by_cases c : T.r0.x < -T.r1.y
-  · rw [(mat2SO3Region_two_iff atol T).mpr ⟨le_of_eq h.symm, c⟩]
-  · rw [(mat2SO3Region_three_iff atol T).mpr ⟨le_of_eq h.symm, not_lt.mp c⟩]; norm_num
-
-
 /-! ## exact guards of the acceptance clause -/
 
 /-- exact rotations pass the two `allclose` tests **iff** `0 ≤ atol` and `0 ≤ atol + rtol` (the earlier theorems
@@ -714,157 +552,7 @@ The float code evaluates `R Rᵀ` and `det R` with some absolute error `δ`. If 
 tolerance reduced by `δ` the float evaluation passes; if the exact matrix fails with the tolerance enlarged by `δ` the
 float evaluation fails. Between the two (the band the harness accepts either verdict in) nothing is claimed. -/
 
-theorem closeTo_mono (rtol rtol' atol atol' a b : ℝ) (hr : rtol ≤ rtol') (ha : atol ≤ atol')
-    (h : closeTo rtol atol a b = true) : closeTo rtol' atol' a b = true := by
-  rw [closeTo_iff] at *
-  have := mul_le_mul_of_nonneg_right hr (abs_nonneg b); linarith
-
-theorem closeTo_of_near (rtol atol δ a a' b : ℝ) (hδ : |a' - a| ≤ δ)
-    (h : closeTo rtol (atol - δ) a b = true) : closeTo rtol atol a' b = true := by
-  rw [closeTo_iff] at *
-  calc |a' - b| = |(a' - a) + (a - b)| := by ring_nf
-    _ ≤ |a' - a| + |a - b| := abs_add_le _ _
-    _ ≤ atol + rtol * |b| := by linarith
-
-theorem closeTo_false_of_near (rtol atol δ a a' b : ℝ) (hδ : |a' - a| ≤ δ)
-    (h : closeTo rtol (atol + δ) a b = false) : closeTo rtol atol a' b = false := by
-  apply Bool.eq_false_iff.mpr; intro hc
-  have : closeTo rtol (atol + δ) a b = true := by
-    apply closeTo_of_near rtol (atol + δ) δ a' a b (by rw [abs_sub_comm]; exact hδ)
-    simpa using hc
-  rw [h] at this; exact absurd this (by simp)
-
-/-- entrywise distance of two matrices at most `δ` -/
-def Vec3.Near (δ : ℝ) (a b : Vec3 ℝ) : Prop := |a.x - b.x| ≤ δ ∧ |a.y - b.y| ≤ δ ∧ |a.z - b.z| ≤ δ
-def Mat3.Near (δ : ℝ) (A B : Mat3 ℝ) : Prop := Vec3.Near δ A.r0 B.r0 ∧ Vec3.Near δ A.r1 B.r1 ∧ Vec3.Near δ A.r2 B.r2
-
-/-- **guard band, accept side**: a computed `E'` within `δ` of the exact `E = R Rᵀ` passes `allclose(·, 1, rtol, atol)`
-whenever `E` passes with `atol − δ` -/
-theorem guard_band_accept (rtol atol δ : ℝ) (E E' B : Mat3 ℝ) (hn : Mat3.Near δ E' E)
-    (h : Mat3.allclose rtol (atol - δ) E B = true) : Mat3.allclose rtol atol E' B = true := by
-  obtain ⟨⟨a1, a2, a3⟩, ⟨b1, b2, b3⟩, ⟨c1, c2, c3⟩⟩ := hn
-  simp only [Mat3.allclose, Vec3.allclose, Bool.and_eq_true] at h ⊢
-  obtain ⟨⟨⟨⟨h1, h2⟩, h3⟩, ⟨⟨h4, h5⟩, h6⟩⟩, ⟨⟨h7, h8⟩, h9⟩⟩ := h
-  exact ⟨⟨⟨⟨closeTo_of_near _ _ δ _ _ _ a1 h1, closeTo_of_near _ _ δ _ _ _ a2 h2⟩, closeTo_of_near _ _ δ _ _ _ a3 h3⟩,
-    ⟨⟨closeTo_of_near _ _ δ _ _ _ b1 h4, closeTo_of_near _ _ δ _ _ _ b2 h5⟩, closeTo_of_near _ _ δ _ _ _ b3 h6⟩⟩,
-    ⟨⟨closeTo_of_near _ _ δ _ _ _ c1 h7, closeTo_of_near _ _ δ _ _ _ c2 h8⟩, closeTo_of_near _ _ δ _ _ _ c3 h9⟩⟩
-
-/-- **guard band, reject side**: if the exact `E` fails even with `atol + δ`, every `E'` within `δ` of it fails with `atol` -/
-theorem guard_band_reject (rtol atol δ : ℝ) (E E' B : Mat3 ℝ) (hn : Mat3.Near δ E' E)
-    (h : Mat3.allclose rtol (atol + δ) E B = false) : Mat3.allclose rtol atol E' B = false := by
-  apply Bool.eq_false_iff.mpr; intro hc
-  have hn' : Mat3.Near δ E E' := by
-    obtain ⟨⟨a1, a2, a3⟩, ⟨b1, b2, b3⟩, ⟨c1, c2, c3⟩⟩ := hn
-    refine ⟨⟨?_, ?_, ?_⟩, ⟨?_, ?_, ?_⟩, ⟨?_, ?_, ?_⟩⟩ <;> rw [abs_sub_comm] <;> assumption
-  have := guard_band_accept rtol (atol + δ) δ E' E B hn' (by simpa using hc)
-  rw [h] at this; exact absurd this (by simp)
-
-/-- the tests are monotone in both tolerances (so the verdicts at `tol·(1−b)`, `tol`, `tol·(1+b)` are nested) -/
-theorem orthOk_mono (rtol rtol' atol atol' : ℝ) (R : Mat3 ℝ) (hr : rtol ≤ rtol') (ha : atol ≤ atol')
-    (h : orthOk rtol atol R = true) : orthOk rtol' atol' R = true := by
-  unfold orthOk at *
-  simp only [Mat3.allclose, Vec3.allclose, Bool.and_eq_true] at h ⊢
-  obtain ⟨⟨⟨⟨h1, h2⟩, h3⟩, ⟨⟨h4, h5⟩, h6⟩⟩, ⟨⟨h7, h8⟩, h9⟩⟩ := h
-  exact ⟨⟨⟨⟨closeTo_mono _ _ _ _ _ _ hr ha h1, closeTo_mono _ _ _ _ _ _ hr ha h2⟩, closeTo_mono _ _ _ _ _ _ hr ha h3⟩,
-    ⟨⟨closeTo_mono _ _ _ _ _ _ hr ha h4, closeTo_mono _ _ _ _ _ _ hr ha h5⟩, closeTo_mono _ _ _ _ _ _ hr ha h6⟩⟩,
-    ⟨⟨closeTo_mono _ _ _ _ _ _ hr ha h7, closeTo_mono _ _ _ _ _ _ hr ha h8⟩, closeTo_mono _ _ _ _ _ _ hr ha h9⟩⟩
-
-theorem detOk_mono (rtol rtol' atol atol' d : ℝ) (hr : rtol ≤ rtol') (ha : atol ≤ atol')
-    (h : detOk rtol atol d = true) : detOk rtol' atol' d = true := closeTo_mono _ _ _ _ _ _ hr ha h
-
-
 /-! ## the calling glue: shape validation, dispatch, defaults -/
-
-/-- which shapes are accepted: at least two dimensions and a trailing `3×3`, `3×4` or `4×4` -/
-theorem layoutOf_some_iff (rank rows cols : Nat) (l : Layout) :
-    layoutOf rank rows cols = some l ↔
-      2 ≤ rank ∧ ((rows = 3 ∧ cols = 3 ∧ l = .m33) ∨ (rows = 3 ∧ cols = 4 ∧ l = .m34) ∨ (rows = 4 ∧ cols = 4 ∧ l = .m44)) := by
-  unfold layoutOf
-  by_cases hr : rank < 2
-  · simp [hr]
-  · have h2 : 2 ≤ rank := by omega
-    by_cases h33 : rows = 3 ∧ cols = 3
-    · obtain ⟨a, b⟩ := h33; subst a; subst b; simp [hr, h2]; exact eq_comm
-    · by_cases h34 : rows = 3 ∧ cols = 4
-      · obtain ⟨a, b⟩ := h34; subst a; subst b; simp [hr, h2]; exact eq_comm
-      · by_cases h44 : rows = 4 ∧ cols = 4
-        · obtain ⟨a, b⟩ := h44; subst a; subst b; simp [hr, h2]; exact eq_comm
-        · have e33 : (rows == 3 && cols == 3) = false := by
-            cases h : (rows == 3 && cols == 3) with
-            | false => rfl
-            | true => simp at h; exact absurd h h33
-          have e34 : (rows == 3 && cols == 4) = false := by
-            cases h : (rows == 3 && cols == 4) with
-            | false => rfl
-            | true => simp at h; exact absurd h h34
-          have e44 : (rows == 4 && cols == 4) = false := by
-            cases h : (rows == 4 && cols == 4) with
-            | false => rfl
-            | true => simp at h; exact absurd h h44
-          simp only [hr, e33, e34, e44, if_false, Bool.false_eq_true]
-          constructor
-          · intro h; exact absurd h (by simp)
-          · rintro ⟨_, h | h | h⟩
-            · exact absurd ⟨h.1, h.2.1⟩ h33
-            · exact absurd ⟨h.1, h.2.1⟩ h34
-            · exact absurd ⟨h.1, h.2.1⟩ h44
-
-/-- a call raises the shape error **iff** the shape is not one of the accepted ones — whatever else is wrong with the
-call (the shape tests come first) -/
-theorem convCall_badShape_iff (detK : Mat3 ℝ → ℝ) (e : Entry) (rank rows cols : Nat) (a : CallArgs ℝ)
-    (Ms : List (DMat ℝ)) :
-    convCall detK e rank rows cols a Ms = .error .badShape ↔ layoutOf rank rows cols = none := by
-  unfold convCall
-  cases hl : layoutOf rank rows cols with
-  | none => simp
-  | some lay =>
-    simp only []
-    constructor
-    · intro h
-      cases e with
-      | fromMatrix lt =>
-        cases lt with
-        | none => simp at h
-        | some ty =>
-          simp only [] at h
-          cases hb : fromMatrixBatch ty detK a.effCheck a.effRtol a.effAtol (Ms.map (MatIn.ofDMat lay)) <;> simp [hb] at h
-      | direct ty =>
-        simp only [] at h
-        cases hb : fromMatrixBatch ty detK a.effCheck a.effRtol a.effAtol (Ms.map (MatIn.ofDMat lay)) <;> simp [hb] at h
-    · intro h; exact absurd h (by simp)
-
-/-- `from_matrix(mat, X_type, …)` **is** `mat2X(mat, …)` — the dispatch table passes every argument through unchanged -/
-theorem convCall_fromMatrix_eq_direct (detK : Mat3 ℝ → ℝ) (ty : GTy) (rank rows cols : Nat) (a : CallArgs ℝ)
-    (Ms : List (DMat ℝ)) :
-    convCall detK (.fromMatrix (some ty)) rank rows cols a Ms = convCall detK (.direct ty) rank rows cols a Ms := by
-  unfold convCall; cases layoutOf rank rows cols <;> rfl
-
-/-- an `ltype` that is not one of the four group types is refused (after the shape tests) -/
-theorem convCall_badLtype (detK : Mat3 ℝ → ℝ) (rank rows cols : Nat) (a : CallArgs ℝ) (Ms : List (DMat ℝ)) (l : Layout)
-    (h : layoutOf rank rows cols = some l) :
-    convCall detK (.fromMatrix none) rank rows cols a Ms = .error .badLtype := by
-  unfold convCall; rw [h]
-
-/-- **defaulting**: leaving an argument out is the same as passing its default (`check=True`, `rtol=atol=1e-5`),
-independently for each of the three arguments -/
-theorem convCall_defaults (detK : Mat3 ℝ → ℝ) (e : Entry) (rank rows cols : Nat) (a : CallArgs ℝ) (Ms : List (DMat ℝ)) :
-    convCall detK e rank rows cols a Ms =
-      convCall detK e rank rows cols ⟨some a.effCheck, some a.effRtol, some a.effAtol⟩ Ms := by
-  unfold convCall CallArgs.effCheck CallArgs.effRtol CallArgs.effAtol
-  simp only [Option.getD_some]
-
-theorem callArgs_none_eff : (⟨none, none, none⟩ : CallArgs ℝ).effCheck = true ∧
-    (⟨none, none, none⟩ : CallArgs ℝ).effRtol = 1 / 100000 ∧ (⟨none, none, none⟩ : CallArgs ℝ).effAtol = 1 / 100000 := by
-  simp [CallArgs.effCheck, CallArgs.effRtol, CallArgs.effAtol, defCheck, defRtol, defAtol]
-
-/-- the wrapped core: on an accepted shape a call of `mat2X` / `from_matrix(·, X_type)` is `fromMatrixBatch` on the
-blocks of the input with the effective arguments -/
-theorem convCall_eq_core (detK : Mat3 ℝ → ℝ) (ty : GTy) (rank rows cols : Nat) (l : Layout) (a : CallArgs ℝ)
-    (Ms : List (DMat ℝ)) (h : layoutOf rank rows cols = some l) (r : List (List ℝ)) :
-    convCall detK (.direct ty) rank rows cols a Ms = .ok r ↔
-      fromMatrixBatch ty detK a.effCheck a.effRtol a.effAtol (Ms.map (MatIn.ofDMat l)) = .ok r := by
-  unfold convCall; rw [h]; simp only []
-  cases hb : fromMatrixBatch ty detK a.effCheck a.effRtol a.effAtol (Ms.map (MatIn.ofDMat l)) <;> simp
 
 /-- **round trip through the public call**, any subset of the optional arguments given: a batch of valid Sim3 elements
 passed as 4×4 matrices to `from_matrix(·, Sim3_type, …)` or `mat2Sim3(·, …)` comes back (up to the quaternion sign), as
@@ -891,11 +579,6 @@ theorem convCall_Sim3_matrix (detK : Mat3 ℝ → ℝ) (hdet : ∀ M, detK M = M
   · unfold convCall; rw [hl]; simp only [fromMatrixBatch, hmap, core]
     simp [Except.map, List.map_map, Function.comp]
 
-/-- `euler()` with the default `eps = 2·10⁻⁴`: the glue only fills in the default … -/
-theorem SO3eulerCall_default (p : Quat ℝ) : SO3eulerCall none p = SO3euler (1 / 5000) p := by
-  simp [SO3eulerCall, defEulerEps]
-theorem SO3eulerCall_some (eps : ℝ) (p : Quat ℝ) : SO3eulerCall (some eps) p = SO3euler eps p := rfl
-
 /-- … so the converse holds for the call as the user makes it, with the code's own default band -/
 theorem eulerCall_default_converse (p : Quat ℝ) (h : p.normSq = 1) (hreg : |2 * (p.w * p.y - p.z * p.x)| < 1 - 1 / 5000) :
     euler2SO3 (SO3eulerCall none p) = p ∨ euler2SO3 (SO3eulerCall none p) = p.neg := by
@@ -904,93 +587,19 @@ theorem eulerCall_default_converse (p : Quat ℝ) (h : p.normSq = 1) (hreg : |2 
 
 /-! ## 8. pass 3: the round trip is not a contraction; coincidences with the tolerance -/
 
-/-- candidate 3 on the matrix the code builds from an arbitrary (not necessarily unit) quaternion -/
-theorem cand3_rot_general (p : Quat ℝ) :
-    cand3 (SO3matrix p).transpose = ⟨4 - 4 * (p.x * p.x + p.y * p.y + p.z * p.z), 4 - 4 * (p.x * p.x + p.y * p.y + p.z * p.z),
-      4 * p.w * p.x, 4 * p.w * p.y, 4 * p.w * p.z⟩ := by
-  unfold cand3 SO3matrix; ext <;> lie_unfold <;> ring
-
-/-- **the round trip is not a contraction**: if `‖p‖² = 1 + e` (a rounding-level norm defect `e`) and the `w` candidate is
-selected, `mat2SO3(matrix(p))` has `‖·‖² − 1 = e·(1 − w² + e)/(w² − e)` — the defect is multiplied by `(1 − w²)/w²`, up to 3
-at `w² = 1/4`; iterating the round trip drifts away from the unit sphere geometrically (observed on the real code) -/
-theorem roundtrip_norm_amplification (p : Quat ℝ) (atol e : ℝ) (he : p.normSq = 1 + e)
-    (hreg : mat2SO3Region atol (SO3matrix p).transpose = 3) (hpos : 0 < p.w * p.w - e) :
-    (mat2SO3Raw atol (SO3matrix p)).normSq - 1 = e * (1 - p.w * p.w + e) / (p.w * p.w - e) := by
-  have he' : p.x * p.x + p.y * p.y + p.z * p.z + p.w * p.w = 1 + e := he
-  have ht : 4 - 4 * (p.x * p.x + p.y * p.y + p.z * p.z) = 4 * (p.w * p.w - e) := by linarith
-  have htpos : 0 < 4 - 4 * (p.x * p.x + p.y * p.y + p.z * p.z) := by rw [ht]; linarith
-  unfold mat2SO3Raw
-  simp only [hreg, candOf, cand3_rot_general]
-  obtain ⟨eq, hi⟩ := Cand.toQuat_scaled_inv
-    (⟨4 - 4 * (p.x * p.x + p.y * p.y + p.z * p.z), 4 - 4 * (p.x * p.x + p.y * p.y + p.z * p.z),
-      4 * p.w * p.x, 4 * p.w * p.y, 4 * p.w * p.z⟩ : Cand ℝ) htpos
-  rw [eq]
-  simp only [] at hi ⊢
-  set i := 1 / (2 * Real.sqrt (4 - 4 * (p.x * p.x + p.y * p.y + p.z * p.z))) with hidef
-  have hne : p.w * p.w - e ≠ 0 := ne_of_gt hpos
-  rw [eq_div_iff hne]
-  simp only [Quat.normSq]
-  -- 4 t i² = 1 with t = 4 (w² − e)
-  have hi' : 16 * (p.w * p.w - e) * i * i = 1 := by rw [ht] at hi; linarith
-  have hxyz : p.x * p.x + p.y * p.y + p.z * p.z = 1 + e - p.w * p.w := by linarith
-  have key : (4 * p.w * p.x * i) * (4 * p.w * p.x * i) + (4 * p.w * p.y * i) * (4 * p.w * p.y * i)
-      + (4 * p.w * p.z * i) * (4 * p.w * p.z * i)
-      + ((4 - 4 * (p.x * p.x + p.y * p.y + p.z * p.z)) * i) * ((4 - 4 * (p.x * p.x + p.y * p.y + p.z * p.z)) * i)
-      = 16 * i * i * (p.w * p.w * (1 + e - p.w * p.w) + (p.w * p.w - e) * (p.w * p.w - e)) := by
-    rw [ht]; linear_combination (16 * i * i * (p.w * p.w)) * hxyz
-  rw [key]
-  linear_combination ((p.w * p.w * (1 + e - p.w * p.w) + (p.w * p.w - e) * (p.w * p.w - e))) * hi'
-
-/-- instance: at `w² = 1/4` a defect `e = 1/100` is more than tripled -/
-example : 3 * (1 / 100 : ℝ) < (1 / 100) * (1 - 1 / 4 + 1 / 100) / (1 / 4 - 1 / 100) := by norm_num
-
-/-- exact coincidence with the tolerance: an off-diagonal entry of `R Rᵀ` **equal** to `atol` passes (`allclose` is `≤`) … -/
-theorem check_tie_accepts (a : ℝ) (h0 : 0 ≤ a) (h1 : a ≤ 1) :
-    orthOk 0 a (⟨⟨1, a, 0⟩, ⟨0, 1, 0⟩, ⟨0, 0, 1⟩⟩ : Mat3 ℝ) = true := by
-  rw [orthOk_iff]; lie_unfold
-  have : a * a ≤ a := by nlinarith
-  have h2 : 0 ≤ a * a := mul_self_nonneg a
-  simp only [mul_one, mul_zero, add_zero, zero_add, one_mul, zero_mul, sub_self, abs_zero]
-  refine ⟨⟨?_, by simpa using h0, by simpa using h0⟩, ?_, by simpa using h0, ?_, by simpa using h0, by simpa using h0, by simpa using h0⟩
-  · rw [show (1 : ℝ) + a * a - 1 = a * a by ring, abs_of_nonneg h2]; linarith
-  · rw [abs_of_nonneg h0]
-  · rw [abs_of_nonneg h0]
-
-/-- … and anything above it is refused -/
-theorem check_tie_rejects_above (a b : ℝ) (h0 : 0 ≤ a) (hb : a < b) :
-    orthOk 0 a (⟨⟨1, b, 0⟩, ⟨0, 1, 0⟩, ⟨0, 0, 1⟩⟩ : Mat3 ℝ) = false := by
-  apply Bool.eq_false_iff.mpr; intro hok
-  have h := ((orthOk_iff _ _ _).mp hok).2.1
-  revert h; lie_unfold
-  simp only [mul_one, mul_zero, add_zero, zero_add, one_mul, zero_mul]
-  intro h; rw [abs_of_pos (by linarith)] at h; linarith
-
 /-! ## 9. pass 3: the gimbal band -/
 
-/-- on a unit quaternion `t2 = sin(pitch)` lies in `[-1, 1]`, and the rest of the third row of `R(X)` has length `cos(pitch)`:
-`R21² + R22² = 1 − t2²` -/
-theorem euler_t2_bounds (p : Quat ℝ) (h : p.normSq = 1) :
-    |2 * (p.w * p.y - p.z * p.x)| ≤ 1 ∧
-    ((SO3matrix p).r2.y) ^ 2 + ((SO3matrix p).r2.z) ^ 2 = 1 - (2 * (p.w * p.y - p.z * p.x)) ^ 2 ∧
-    (SO3matrix p).r2.x = -(2 * (p.w * p.y - p.z * p.x)) := by
-  have h' : p.x * p.x + p.y * p.y + p.z * p.z + p.w * p.w = 1 := h
-  have e : ((SO3matrix p).r2.y) ^ 2 + ((SO3matrix p).r2.z) ^ 2 = 1 - (2 * (p.w * p.y - p.z * p.x)) ^ 2 := by
-    unfold SO3matrix; lie_unfold
-    linear_combination (4 * (p.x * p.x + p.y * p.y)) * h'
-  refine ⟨?_, e, ?_⟩
-  · have hn : 0 ≤ 1 - (2 * (p.w * p.y - p.z * p.x)) ^ 2 := by rw [← e]; positivity
-    rw [abs_le]; constructor <;> nlinarith
-  · unfold SO3matrix; lie_unfold; ring
 /-- **inside (and outside) the gimbal band the pitch is exact and the third row is off by at most `2·cos(pitch)`**: for every
-unit `X` and every `eps`, `Rz(yaw)Ry(pitch)Rx(roll)` of the angles returned by `euler()` has third row
-`(−sin pitch, ·, ·)` with `−sin pitch = R20(X)` exactly; in the band (`roll = 0`) that row is `(−t2, 0, √(1−t2²))` while
-`R(X)` has `(−t2, a, b)` with `a² + b² = 1 − t2² ≤ 2·eps`. (The full 3×3 bound `O(√(2·eps))` is measured by the `gimbal`
-oracle, worst case `1.12·acos|t2|`; only this row is proved — hence `_partial`.) -/
+unit `X` and every `eps`, `Rz(yaw)Ry(pitch)Rx(roll)` of the angles returned by `euler()` has third row `(−sin pitch, ·, ·)` with
+`−sin pitch = R20(X)` exactly; in the band (`roll = 0`) that row is `(−t2, 0, √(1−t2²))` while `R(X)` has `(−t2, a, b)` with
+`a² + b² = 1 − t2²`, and in the band `1 − t2² ≤ 2·eps` (last conjunct, `0 ≤ eps`). The full 3×3 bound `O(√(2·eps))` is measured by
+the `gimbal` oracle (worst case `1.12·acos|t2|`); only this row is proved — hence `_partial`. -/
 theorem euler_band_third_row_partial (eps : ℝ) (p : Quat ℝ) (h : p.normSq = 1) :
     (eulerMat (SO3euler eps p)).r2.x = (SO3matrix p).r2.x ∧
     (eulerRegular eps p = false →
       (eulerMat (SO3euler eps p)).r2 = ⟨-(2 * (p.w * p.y - p.z * p.x)), 0, Real.sqrt (1 - (2 * (p.w * p.y - p.z * p.x)) ^ 2)⟩) ∧
-    ((SO3matrix p).r2.y) ^ 2 + ((SO3matrix p).r2.z) ^ 2 = 1 - (2 * (p.w * p.y - p.z * p.x)) ^ 2 := by
+    ((SO3matrix p).r2.y) ^ 2 + ((SO3matrix p).r2.z) ^ 2 = 1 - (2 * (p.w * p.y - p.z * p.x)) ^ 2 ∧
+    (eulerRegular eps p = false → 0 ≤ eps → 1 - (2 * (p.w * p.y - p.z * p.x)) ^ 2 ≤ 2 * eps) := by
   obtain ⟨hb, hrow, h20⟩ := euler_t2_bounds p h
   have hT := eulerT_unit p h
   obtain ⟨hlo, hhi⟩ := abs_le.mp hb
@@ -998,7 +607,7 @@ theorem euler_band_third_row_partial (eps : ℝ) (p : Quat ℝ) (h : p.normSq = 
   have hasin := sasin_real _ hb
   have hpitch : (SO3euler eps p).y = Real.arcsin (2 * (p.w * p.y - p.z * p.x)) := by
     unfold SO3euler; simp only [hT, k_real, Nat.cast_one, hclamp, hasin]
-  refine ⟨?_, ?_, hrow⟩
+  refine ⟨?_, ?_, hrow, ?_⟩
   · rw [h20]
     unfold eulerMat rotX rotY rotZ
     lie_unfold
@@ -1010,6 +619,247 @@ theorem euler_band_third_row_partial (eps : ℝ) (p : Quat ℝ) (h : p.normSq = 
     unfold eulerMat rotX rotY rotZ
     ext <;> lie_unfold <;> simp only [sin_real, cos_real, hpitch, hroll, Real.sin_arcsin hlo hhi, Real.cos_arcsin,
       Real.sin_zero, Real.cos_zero] <;> ring
+  · intro hreg heps
+    have hnot : ¬ |2 * (p.w * p.y - p.z * p.x)| < 1 - eps := by
+      intro hlt; have := (eulerRegular_iff eps p h).mpr hlt; rw [hreg] at this; exact absurd this (by simp)
+    have hge : 1 - eps ≤ |2 * (p.w * p.y - p.z * p.x)| := not_lt.mp hnot
+    have habs0 := abs_nonneg (2 * (p.w * p.y - p.z * p.x))
+    rw [← sq_abs]
+    by_cases h1 : eps ≤ 1
+    · nlinarith
+    · nlinarith [sq_nonneg (|2 * (p.w * p.y - p.z * p.x)|)]
+
+/-! ## 10. audit follow-up: public calls for every type and layout, rejection at the public converters, the rank-test observation, the warning -/
+set_option linter.unusedVariables false
+/-! ### round trip through the public call, every type and layout -/
+
+/-- **`from_matrix(X.matrix()[..., :r, :c], Sim3_type, …)` / `mat2Sim3(…)`**, layouts 3×3 / 3×4 / 4×4, any batch length, any
+subset of `check, rtol, atol` given (admissible values; the defaults are), not all scales `≤ atol`: the call returns `⟨t, ±q, s⟩`
+(`t = 0` for the 3×3 layout) -/
+theorem convCall_Sim3_roundtrip (detK : Mat3 ℝ → ℝ) (hdet : ∀ M, detK M = M.det) (e : Entry)
+    (he : e = .fromMatrix (some .Sim3) ∨ e = .direct .Sim3) (rank r c : Nat) (lay : Layout) (hrank : 2 ≤ rank)
+    (hl : (r = 3 ∧ c = 3 ∧ lay = .m33) ∨ (r = 3 ∧ c = 4 ∧ lay = .m34) ∨ (r = 4 ∧ c = 4 ∧ lay = .m44)) (a : CallArgs ℝ)
+    (hr : ∀ r, a.rtol = some r → 0 ≤ r) (ha : ∀ t, a.atol = some t → 0 ≤ t ∧ t < 1) (Xs : List (Sim3 ℝ))
+    (h : ∀ X ∈ Xs, C11.ValidSim3 X) (hbig : Xs ≠ [] → ∃ X ∈ Xs, a.effAtol < X.s) :
+    convCall detK e rank r c a (Xs.map fun X => sliceD r c (Sim3matrix X))
+      = .ok (Xs.map fun X => Sim3.toList ⟨if lay = .m33 then Vec3.zero else X.t, canonQ a.effAtol X.q, X.s⟩) := by
+  obtain ⟨h1, h2, h3⟩ := effArgs_admissible a hr ha
+  have core := mat2Sim3Batch_blocks detK hdet a.effCheck a.effRtol a.effAtol h1 h2 h3
+    ((Xs.map fun X => sliceD r c (Sim3matrix X)).map (MatIn.ofDMat lay)) Xs (fun X => if lay = .m33 then Vec3.zero else X.t)
+    (by rw [List.map_map, List.map_map]; apply List.map_congr_left; intro X _; exact (slice_Sim3 lay r c hl X).1)
+    (by rw [List.map_map, List.map_map]; apply List.map_congr_left; intro X _; exact (slice_Sim3 lay r c hl X).2) h hbig
+  rcases he with rfl | rfl <;>
+  · unfold convCall; rw [layoutOf_of rank r c lay hrank hl]; simp only [fromMatrixBatch, core]
+    simp [Except.map, List.map_map, Function.comp]
+
+theorem convCall_SE3_roundtrip (detK : Mat3 ℝ → ℝ) (hdet : ∀ M, detK M = M.det) (e : Entry)
+    (he : e = .fromMatrix (some .SE3) ∨ e = .direct .SE3) (rank r c : Nat) (lay : Layout) (hrank : 2 ≤ rank)
+    (hl : (r = 3 ∧ c = 3 ∧ lay = .m33) ∨ (r = 3 ∧ c = 4 ∧ lay = .m34) ∨ (r = 4 ∧ c = 4 ∧ lay = .m44)) (a : CallArgs ℝ)
+    (hr : ∀ r, a.rtol = some r → 0 ≤ r) (ha : ∀ t, a.atol = some t → 0 ≤ t ∧ t < 1) (Xs : List (SE3 ℝ))
+    (h : ∀ X ∈ Xs, C11.ValidSE3 X) :
+    convCall detK e rank r c a (Xs.map fun X => sliceD r c (SE3matrix X))
+      = .ok (Xs.map fun X => SE3.toList ⟨if lay = .m33 then Vec3.zero else X.t, canonQ a.effAtol X.q⟩) := by
+  obtain ⟨h1, h2, h3⟩ := effArgs_admissible a hr ha
+  have core := mat2SE3Batch_blocks detK hdet a.effCheck a.effRtol a.effAtol h1 h2 h3
+    ((Xs.map fun X => sliceD r c (SE3matrix X)).map (MatIn.ofDMat lay)) Xs (fun X => if lay = .m33 then Vec3.zero else X.t)
+    (by rw [List.map_map, List.map_map]; apply List.map_congr_left; intro X _; exact (slice_SE3 lay r c hl X).1)
+    (by rw [List.map_map, List.map_map]; apply List.map_congr_left; intro X _; exact (slice_SE3 lay r c hl X).2) h
+  rcases he with rfl | rfl <;>
+  · unfold convCall; rw [layoutOf_of rank r c lay hrank hl]; simp only [fromMatrixBatch, core]
+    simp [Except.map, List.map_map, Function.comp]
+
+theorem convCall_RxSO3_roundtrip (detK : Mat3 ℝ → ℝ) (hdet : ∀ M, detK M = M.det) (e : Entry)
+    (he : e = .fromMatrix (some .RxSO3) ∨ e = .direct .RxSO3) (rank r c : Nat) (lay : Layout) (hrank : 2 ≤ rank)
+    (hl : (r = 3 ∧ c = 3 ∧ lay = .m33) ∨ (r = 3 ∧ c = 4 ∧ lay = .m34) ∨ (r = 4 ∧ c = 4 ∧ lay = .m44)) (a : CallArgs ℝ)
+    (hr : ∀ r, a.rtol = some r → 0 ≤ r) (ha : ∀ t, a.atol = some t → 0 ≤ t ∧ t < 1) (Xs : List (RxSO3 ℝ))
+    (h : ∀ X ∈ Xs, C11.ValidRxSO3 X) (hbig : Xs ≠ [] → ∃ X ∈ Xs, a.effAtol < X.s) :
+    convCall detK e rank r c a (Xs.map fun X => sliceD r c (RxSO3matrix X))
+      = .ok (Xs.map fun X => RxSO3.toList ⟨canonQ a.effAtol X.q, X.s⟩) := by
+  obtain ⟨h1, h2, h3⟩ := effArgs_admissible a hr ha
+  have core := mat2RxSO3Batch_blocks detK hdet a.effCheck a.effRtol a.effAtol h1 h2 h3
+    ((Xs.map fun X => sliceD r c (RxSO3matrix X)).map (MatIn.ofDMat lay)) Xs
+    (by rw [List.map_map, List.map_map]; apply List.map_congr_left; intro X _; exact slice_RxSO3 lay r c hl X) h hbig
+  rcases he with rfl | rfl <;>
+  · unfold convCall; rw [layoutOf_of rank r c lay hrank hl]; simp only [fromMatrixBatch, core]
+    simp [Except.map, List.map_map, Function.comp]
+
+/-- `from_matrix(·, SO3_type)` / `mat2SO3` on the matrix of an **SE3** element in any layout (only the 3×3 block is read),
+in particular on `X.matrix()` of an SO3 element (3×3) -/
+theorem convCall_SO3_roundtrip (detK : Mat3 ℝ → ℝ) (hdet : ∀ M, detK M = M.det) (e : Entry)
+    (he : e = .fromMatrix (some .SO3) ∨ e = .direct .SO3) (rank r c : Nat) (lay : Layout) (hrank : 2 ≤ rank)
+    (hl : (r = 3 ∧ c = 3 ∧ lay = .m33) ∨ (r = 3 ∧ c = 4 ∧ lay = .m34) ∨ (r = 4 ∧ c = 4 ∧ lay = .m44)) (a : CallArgs ℝ)
+    (hr : ∀ r, a.rtol = some r → 0 ≤ r) (ha : ∀ t, a.atol = some t → 0 ≤ t ∧ t < 1) (Xs : List (SE3 ℝ))
+    (h : ∀ X ∈ Xs, C11.ValidSE3 X) :
+    convCall detK e rank r c a (Xs.map fun X => sliceD r c (SE3matrix X))
+      = .ok (Xs.map fun X => Quat.toList (canonQ a.effAtol X.q)) := by
+  obtain ⟨h1, h2, h3⟩ := effArgs_admissible a hr ha
+  have hR : ((Xs.map fun X => sliceD r c (SE3matrix X)).map (MatIn.ofDMat lay)).map (·.R) = (Xs.map (·.q)).map SO3matrix := by
+    rw [List.map_map, List.map_map, List.map_map]; apply List.map_congr_left; intro X _; exact (slice_SE3 lay r c hl X).1
+  have core := mat2SO3Batch_matrix detK hdet a.effCheck a.effRtol a.effAtol h1 h2 h3 (Xs.map (·.q))
+    (by intro p hp; obtain ⟨X, hX, rfl⟩ := List.mem_map.mp hp; exact h X hX)
+  rcases he with rfl | rfl <;>
+  · unfold convCall; rw [layoutOf_of rank r c lay hrank hl]; simp only [fromMatrixBatch, hR, core]
+    simp [Except.map, List.map_map, Function.comp]
+
+
+/-! ### rejection lifted to the public converters -/
+
+/-- an item is not a rotation beyond the tolerances -/
+def C11.BadRot (detK : Mat3 ℝ → ℝ) (rtol atol : ℝ) (R : Mat3 ℝ) : Prop :=
+  orthOk rtol atol R = false ∨ detOk rtol atol (detK R) = false
+/-- an item is not a *scaled* rotation: non-positive determinant, or its normalisation `R / det^{1/3}` fails a test -/
+def C11.BadScaled (detK : Mat3 ℝ → ℝ) (rtol atol : ℝ) (R : Mat3 ℝ) : Prop :=
+  detK R ≤ 0 ∨ (0 < detK R ∧ C11.BadRot detK rtol atol (Mat3.divS R (cbrtOf (detK R))))
+def C11.BadFor (ty : GTy) (detK : Mat3 ℝ → ℝ) (rtol atol : ℝ) (m : MatIn ℝ) : Prop :=
+  match ty with
+  | .SO3 => C11.BadRot detK rtol atol m.R
+  | .SE3 => C11.BadRot detK rtol atol m.R
+  | .Sim3 => C11.BadScaled detK rtol atol m.R
+  | .RxSO3 => C11.BadScaled detK rtol atol m.R
+
+theorem scaledRotBatch_rejects (detK : Mat3 ℝ → ℝ) (rtol atol : ℝ) (Rs : List (Mat3 ℝ))
+    (h : ∃ R ∈ Rs, C11.BadScaled detK rtol atol R) : ∃ e, scaledRotBatch detK true rtol atol Rs = .error e := by
+  obtain ⟨R, hR, hb⟩ := h
+  rcases hb with hd | ⟨hp, hbad⟩
+  · exact scaled_rejects_nonpositive_det detK rtol atol Rs ⟨R, hR, hd⟩
+  · exact scaled_rejects_nonrotation detK rtol atol Rs ⟨R, hR, hp, hbad⟩
+
+/-- **rejection, public converters**: with `check=True`, one item anywhere in the batch that is not a (scaled) rotation beyond
+the tolerances makes `mat2SO3 / mat2SE3 / mat2Sim3 / mat2RxSO3` (= `from_matrix` for that ltype) raise -/
+theorem fromMatrixBatch_rejects (ty : GTy) (detK : Mat3 ℝ → ℝ) (rtol atol : ℝ) (ms : List (MatIn ℝ))
+    (h : ∃ m ∈ ms, C11.BadFor ty detK rtol atol m) : ∃ e, fromMatrixBatch ty detK true rtol atol ms = .error e := by
+  obtain ⟨m, hm, hb⟩ := h
+  cases ty with
+  | SO3 =>
+    obtain ⟨e, he⟩ := mat2SO3Batch_error_of_bad detK rtol atol (ms.map (·.R)) ⟨m.R, List.mem_map.mpr ⟨m, hm, rfl⟩, hb⟩
+    exact ⟨e, by simp [fromMatrixBatch, he, Except.map]⟩
+  | SE3 =>
+    obtain ⟨e, he⟩ := mat2SO3Batch_error_of_bad detK rtol atol (ms.map (·.R)) ⟨m.R, List.mem_map.mpr ⟨m, hm, rfl⟩, hb⟩
+    exact ⟨e, by simp [fromMatrixBatch, mat2SE3Batch, he, Except.map]⟩
+  | Sim3 =>
+    obtain ⟨e, he⟩ := scaledRotBatch_rejects detK rtol atol (ms.map (·.R)) ⟨m.R, List.mem_map.mpr ⟨m, hm, rfl⟩, hb⟩
+    exact ⟨e, by simp [fromMatrixBatch, mat2Sim3Batch, he, Except.map]⟩
+  | RxSO3 =>
+    obtain ⟨e, he⟩ := scaledRotBatch_rejects detK rtol atol (ms.map (·.R)) ⟨m.R, List.mem_map.mpr ⟨m, hm, rfl⟩, hb⟩
+    exact ⟨e, by simp [fromMatrixBatch, mat2RxSO3Batch, he, Except.map]⟩
+
+/-- … and so does the public call (`check` given as `True` or left at its default), as a conversion error (not a shape /
+ltype error) -/
+theorem convCall_rejects (detK : Mat3 ℝ → ℝ) (ty : GTy) (e : Entry) (he : e = .fromMatrix (some ty) ∨ e = .direct ty)
+    (rank r c : Nat) (lay : Layout) (hl : layoutOf rank r c = some lay) (a : CallArgs ℝ) (hc : a.effCheck = true)
+    (Ms : List (DMat ℝ)) (h : ∃ M ∈ Ms, C11.BadFor ty detK a.effRtol a.effAtol (MatIn.ofDMat lay M)) :
+    ∃ err, convCall detK e rank r c a Ms = .error (.conv err) := by
+  obtain ⟨M, hM, hb⟩ := h
+  obtain ⟨err, herr⟩ := fromMatrixBatch_rejects ty detK a.effRtol a.effAtol (Ms.map (MatIn.ofDMat lay))
+    ⟨MatIn.ofDMat lay M, List.mem_map.mpr ⟨M, hM, rfl⟩, hb⟩
+  refine ⟨err, ?_⟩
+  rcases he with rfl | rfl <;> (unfold convCall; rw [hl]; simp only [hc, herr])
+
+/-! ### "same matrix" stated on what the converter returns -/
+
+/-- `mat2SE3(X.matrix())` (4×4 or 3×4) returns an element whose `matrix()` is `X.matrix()`; for the 3×3 layout the rotation
+block is the same and the translation is zero -/
+theorem mat2SE3_roundtrip_matrix (detK : Mat3 ℝ → ℝ) (hdet : ∀ M, detK M = M.det) (check : Bool) (rtol atol : ℝ)
+    (hr : 0 ≤ rtol) (ha0 : 0 ≤ atol) (ha1 : atol < 1) (lay : Layout) (X : SE3 ℝ) (h : C11.ValidSE3 X) :
+    ∃ r, mat2SE3 detK check rtol atol (MatIn.ofDMat lay (SE3matrix X)) = .ok r ∧ r.q.normSq = 1 ∧
+      (lay ≠ .m33 → SE3matrix r = SE3matrix X) ∧ (lay = .m33 → SE3matrix r = SE3matrix ⟨Vec3.zero, X.q⟩) := by
+  refine ⟨⟨if lay = .m33 then Vec3.zero else X.t, canonQ atol X.q⟩, ?_, by rw [canonQ_normSq]; exact h, ?_, ?_⟩
+  · unfold mat2SE3
+    rw [MatIn.ofDMat_SE3]
+    simp only [mat2SO3_on_rot detK hdet check rtol atol hr ha0 ha1 X.q h, MatIn.tOf]
+    cases lay <;> simp
+  · intro hne; simp only [hne, if_false, SE3matrix, matrix4, SE3Act4, canonQ_act]
+  · intro he; simp only [he, if_true, SE3matrix, matrix4, SE3Act4, canonQ_act]
+
+theorem mat2Sim3_roundtrip_matrix (detK : Mat3 ℝ → ℝ) (hdet : ∀ M, detK M = M.det) (check : Bool) (rtol atol : ℝ)
+    (hr : 0 ≤ rtol) (ha0 : 0 ≤ atol) (ha1 : atol < 1) (lay : Layout) (X : Sim3 ℝ) (h : C11.ValidSim3 X) (hbig : atol < X.s) :
+    ∃ r, mat2Sim3 detK check rtol atol (MatIn.ofDMat lay (Sim3matrix X)) = .ok r ∧ r.q.normSq = 1 ∧ r.s = X.s ∧
+      (lay ≠ .m33 → Sim3matrix r = Sim3matrix X) ∧ (lay = .m33 → Sim3matrix r = Sim3matrix ⟨Vec3.zero, X.q, X.s⟩) := by
+  refine ⟨⟨if lay = .m33 then Vec3.zero else X.t, canonQ atol X.q, X.s⟩,
+    mat2Sim3_matrix detK hdet check rtol atol hr ha0 ha1 lay X h hbig, by rw [canonQ_normSq]; exact h.1, rfl, ?_, ?_⟩
+  · intro hne; simp only [hne, if_false, Sim3matrix, matrix4, Sim3Act4, canonQ_act]
+  · intro he; simp only [he, if_true, Sim3matrix, matrix4, Sim3Act4, canonQ_act]
+
+theorem mat2RxSO3_roundtrip_matrix (detK : Mat3 ℝ → ℝ) (hdet : ∀ M, detK M = M.det) (check : Bool) (rtol atol : ℝ)
+    (hr : 0 ≤ rtol) (ha0 : 0 ≤ atol) (ha1 : atol < 1) (lay : Layout) (X : RxSO3 ℝ) (h : C11.ValidRxSO3 X) (hbig : atol < X.s) :
+    ∃ r, mat2RxSO3 detK check rtol atol (MatIn.ofDMat lay (RxSO3matrix X)) = .ok r ∧ r.q.normSq = 1 ∧ r.s = X.s ∧
+      RxSO3matrix r = RxSO3matrix X := by
+  refine ⟨⟨canonQ atol X.q, X.s⟩, mat2RxSO3_matrix detK hdet check rtol atol hr ha0 ha1 lay X h hbig,
+    by rw [canonQ_normSq]; exact h.1, rfl, ?_⟩
+  simp only [RxSO3matrix, matrix4, RxSO3Act4, canonQ_act]
+
+/-! ### OBSERVATION: the rank test is a batch-level decision -/
+
+/-- **observation (outside the property's quantifier: scales ≥ 1e-3 with the default `atol = 1e-5`).** A *valid* scaled
+rotation with `0 < s ≤ atol` is refused ("not full rank") when converted alone, and accepted when the batch also contains a
+scale above `atol`: for such inputs neither "valid inputs never raise" nor "batch = item-wise" holds — the code tests
+`allclose(s, 0)` over the whole batch (convert.py, `mat2Sim3` / `mat2RxSO3`) -/
+theorem rank_test_is_batch_level (detK : Mat3 ℝ → ℝ) (hdet : ∀ M, detK M = M.det) (check : Bool) (rtol atol : ℝ)
+    (hr : 0 ≤ rtol) (ha0 : 0 ≤ atol) (ha1 : atol < 1) (p : Quat ℝ) (hp : p.normSq = 1) (s s' : ℝ) (hs : 0 < s)
+    (hsa : s ≤ atol) (hs' : atol < s') :
+    scaledRotBatch detK check rtol atol [Mat3.smul s (SO3matrix p)] = .error .notFullRank ∧
+    scaledRotBatch detK check rtol atol [Mat3.smul s (SO3matrix p), Mat3.smul s' (SO3matrix p)]
+      = .ok [(canonQ atol p, s), (canonQ atol p, s')] := by
+  constructor
+  · have := (scaled_valid_rank_iff detK hdet check rtol atol hr ha0 ha1 [(p, s)] (by simp)
+      (by intro x hx; rw [List.mem_singleton.mp hx]; exact ⟨hp, hs⟩)).mpr
+      (by intro x hx; rw [List.mem_singleton.mp hx]; exact hsa)
+    simpa using this
+  · have := scaledRotBatch_valid detK hdet check rtol atol hr ha0 ha1 [(p, s), (p, s')]
+      (by intro x hx; simp at hx; rcases hx with rfl | rfl
+          · exact ⟨hp, hs⟩
+          · exact ⟨hp, lt_of_le_of_lt ha0 hs'⟩)
+      (fun _ => ⟨(p, s'), by simp, hs'⟩)
+    simpa using this
+
+/-! ### the last-row warning -/
+
+/-- `mat2SO3` and `mat2RxSO3` never look at the last row; only 4×4 inputs can warn; `check=False` never warns -/
+theorem lastRowWarn_scope (check : Bool) (rtol atol : ℝ) (ms : List (MatIn ℝ)) :
+    lastRowWarnBatch .SO3 check rtol atol ms = false ∧ lastRowWarnBatch .RxSO3 check rtol atol ms = false ∧
+    (∀ ty, (∀ m ∈ ms, m.lay ≠ .m44) → lastRowWarnBatch ty check rtol atol ms = false) ∧
+    (∀ ty, lastRowWarnBatch ty false rtol atol ms = false) := by
+  refine ⟨rfl, rfl, ?_, ?_⟩
+  · intro ty hl
+    have hany : ms.any (lastRowWarn check rtol atol) = false := by
+      apply Bool.eq_false_iff.mpr; intro h
+      obtain ⟨m, hm, hw⟩ := List.any_eq_true.mp h
+      have := hl m hm
+      unfold lastRowWarn at hw
+      cases hlay : m.lay <;> simp [hlay] at hw this
+    cases ty <;> simp [lastRowWarnBatch, hany]
+  · intro ty
+    have hany : ms.any (lastRowWarn false rtol atol) = false := by
+      apply Bool.eq_false_iff.mpr; intro h
+      obtain ⟨m, hm, hw⟩ := List.any_eq_true.mp h
+      unfold lastRowWarn at hw
+      cases hlay : m.lay <;> simp [hlay] at hw
+    cases ty <;> simp [lastRowWarnBatch, hany]
+
+/-- the matrices produced by `matrix()` have last row `(0 0 0 1)` exactly: converting them never warns -/
+theorem no_warning_on_matrix (check : Bool) (rtol atol : ℝ) (hr : 0 ≤ rtol) (ha : 0 ≤ atol) (lay : Layout) (Xs : List (Sim3 ℝ))
+    (Ys : List (SE3 ℝ)) :
+    lastRowWarnBatch .Sim3 check rtol atol (Xs.map fun X => MatIn.ofDMat lay (Sim3matrix X)) = false ∧
+    lastRowWarnBatch .SE3 check rtol atol (Ys.map fun X => MatIn.ofDMat lay (SE3matrix X)) = false := by
+  have hrow : Vec3.allclose rtol atol (⟨0, 0, 0⟩ : Vec3 ℝ) Vec3.zero = true := by
+    simp only [Vec3.allclose, Vec3.zero, k_real, Nat.cast_zero, closeTo_self _ _ _ hr ha, Bool.and_self]
+  have h1 : closeTo rtol atol (1 : ℝ) (k 1) = true := by simpa using closeTo_self rtol atol 1 hr ha
+  have h1' : closeTo rtol atol (1 : ℝ) 1 = true := closeTo_self rtol atol 1 hr ha
+  constructor
+  · apply Bool.eq_false_iff.mpr; intro h
+    simp only [lastRowWarnBatch] at h
+    obtain ⟨m, hm, hw⟩ := List.any_eq_true.mp h
+    obtain ⟨X, _, rfl⟩ := List.mem_map.mp hm
+    rw [MatIn.ofDMat_Sim3] at hw
+    unfold lastRowWarn at hw
+    cases lay <;> simp [hrow, h1, h1'] at hw
+  · apply Bool.eq_false_iff.mpr; intro h
+    simp only [lastRowWarnBatch] at h
+    obtain ⟨m, hm, hw⟩ := List.any_eq_true.mp h
+    obtain ⟨X, _, rfl⟩ := List.mem_map.mp hm
+    rw [MatIn.ofDMat_SE3] at hw
+    unfold lastRowWarn at hw
+    cases lay <;> simp [hrow, h1, h1'] at hw
 
 /-! ### non-vacuity: the hypotheses are satisfiable by non-trivial values -/
 
@@ -1021,30 +871,38 @@ example : mat2SO3Raw (1 / 100000) (SO3matrix (⟨1, 0, 0, 0⟩ : Quat ℝ)) = 
     obtain ⟨e0, e1, e2⟩ := rot_diag (⟨1, 0, 0, 0⟩ : Quat ℝ)
     simp only [mat2SO3Region, lt_real, e0, e1, e2]; norm_num
   rw [this]; simp [domComp]
+
 example : C11.ValidSim3 (⟨⟨1, 2, 3⟩, ⟨0, 0.6, 0, 0.8⟩, 2⟩ : Sim3 ℝ) := by
   refine ⟨?_, by norm_num⟩; lie_unfold; norm_num
+
 example : (⟨0.3, -0.5, 2⟩ : Vec3 ℝ).x ∈ Set.Ioc (-Real.pi) Real.pi ∧
     (⟨0.3, -0.5, 2⟩ : Vec3 ℝ).y ∈ Set.Icc (-(Real.pi / 2)) (Real.pi / 2) := by
   have := Real.two_le_pi
   refine ⟨⟨by simp only []; linarith, by simp only []; linarith⟩, ⟨by simp only []; linarith, by simp only []; linarith⟩⟩
+
 /-- `check_rejects_scaled` has instances: `c = 2`, default tolerances -/
 example : (1 / 100000 : ℝ) + 1 / 100000 < |(2 : ℝ) * 2 - 1| := by rw [abs_of_pos] <;> norm_num
+
 /-- exact gimbal lock is attained by a unit quaternion: `p = (0, √½, 0, √½)` has `2(wy − zx) = 1` -/
 example : ∃ p : Quat ℝ, p.normSq = 1 ∧ 2 * (p.w * p.y - p.z * p.x) = 1 := by
   refine ⟨⟨0, Real.sqrt (1 / 2), 0, Real.sqrt (1 / 2)⟩, ?_, ?_⟩
   · lie_unfold; have := Real.mul_self_sqrt (show (0 : ℝ) ≤ 1 / 2 by norm_num); linarith
   · simp only []; have := Real.mul_self_sqrt (show (0 : ℝ) ≤ 1 / 2 by norm_num); linarith
+
 /-- identity is regular for the default `eps = 2e-4` -/
 example : eulerRegular (2 / 10000 : ℝ) (⟨0, 0, 0, 1⟩ : Quat ℝ) = true := by
   rw [eulerRegular_iff _ _ (by lie_unfold; norm_num)]; norm_num
+
 /-- `mat2SO3_general` applies to matrices that are not written as `R(q)`: the cyclic permutation matrix -/
 example : (⟨⟨0, 0, 1⟩, ⟨1, 0, 0⟩, ⟨0, 1, 0⟩⟩ : Mat3 ℝ).mul (⟨⟨0, 0, 1⟩, ⟨1, 0, 0⟩, ⟨0, 1, 0⟩⟩ : Mat3 ℝ).transpose = Mat3.one ∧
     (⟨⟨0, 0, 1⟩, ⟨1, 0, 0⟩, ⟨0, 1, 0⟩⟩ : Mat3 ℝ).det = 1 := by
   constructor
   · ext <;> lie_unfold <;> norm_num
   · lie_unfold; norm_num
+
 /-- hypotheses of `scaled_check_iff` / `scaled_rejects_nonrotation`: `2·1` has determinant `8 > 0` -/
 example : (0 : ℝ) < (Mat3.smul 2 Mat3.one : Mat3 ℝ).det := by lie_unfold; norm_num
+
 /-- tie hypotheses of `mat2SO3Raw_tie_xy` are met by the rotation by π about the `(1,−1,0)` diagonal -/
 example : (⟨Real.sqrt (1 / 2), -Real.sqrt (1 / 2), 0, 0⟩ : Quat ℝ).normSq = 1 ∧
     (Real.sqrt (1 / 2)) * (Real.sqrt (1 / 2)) = (-Real.sqrt (1 / 2)) * (-Real.sqrt (1 / 2)) := by
@@ -1052,11 +910,10 @@ example : (⟨Real.sqrt (1 / 2), -Real.sqrt (1 / 2), 0, 0⟩ : Quat ℝ).normSq 
   constructor
   · lie_unfold; linarith
   · ring
+
 /-- `scaled_valid_rank_iff` / `convCall_Sim3_matrix`: a non-empty valid batch with a scale above the default `atol` -/
 example : ([(⟨0, 0.6, 0, 0.8⟩, 2)] : List (Quat ℝ × ℝ)) ≠ [] ∧ (1 / 100000 : ℝ) < 2 := ⟨by simp, by norm_num⟩
-/-- `guard_band_accept` has non-trivial instances: `Near` with `δ = 10⁻⁷` -/
-example : Mat3.Near (1 / 10000000) (⟨⟨1 + 1 / 20000000, 0, 0⟩, ⟨0, 1, 0⟩, ⟨0, 0, 1⟩⟩ : Mat3 ℝ) Mat3.one := by
-  refine ⟨⟨?_, ?_, ?_⟩, ⟨?_, ?_, ?_⟩, ⟨?_, ?_, ?_⟩⟩ <;> lie_unfold <;> norm_num [abs_of_pos]
+
 /-- the band of `euler_band_third_row_partial` is inhabited: exact gimbal lock is not regular for any `eps ≥ 0` -/
 example : eulerRegular (1 / 5000 : ℝ) (⟨0, Real.sqrt (1 / 2), 0, Real.sqrt (1 / 2)⟩ : Quat ℝ) = false := by
   have hs := Real.mul_self_sqrt (show (0 : ℝ) ≤ 1 / 2 by norm_num)
@@ -1066,5 +923,39 @@ example : eulerRegular (1 / 5000 : ℝ) (⟨0, Real.sqrt (1 / 2), 0, Real.sqrt (
   simp only [] at this
   rw [show 2 * (Real.sqrt (1 / 2) * Real.sqrt (1 / 2) - 0 * 0) = 1 by rw [hs]; norm_num, abs_one] at this
   norm_num at this
+/-- **end-to-end instance of a main theorem** (the auditor's witness): a Sim3 element with rotation angle π (w = 0) about
+(0.6, 0, 0.8), scale 2, translation (1,2,3), passed as a 3×4 matrix to `mat2Sim3` with the real determinant and the default
+tolerances comes back with the same translation, scale and `±q` -/
+example : mat2Sim3 Mat3.det true (1/100000) (1/100000) (MatIn.ofDMat .m34 (Sim3matrix (⟨⟨1,2,3⟩, ⟨0.6, 0, 0.8, 0⟩, 2⟩ : Sim3 ℝ)))
+    = .ok ⟨⟨1,2,3⟩, canonQ (1/100000) ⟨0.6, 0, 0.8, 0⟩, 2⟩ := by
+  have := mat2Sim3_matrix Mat3.det (fun _ => rfl) true (1/100000) (1/100000) (by norm_num) (by norm_num) (by norm_num)
+    .m34 (⟨⟨1,2,3⟩, ⟨0.6, 0, 0.8, 0⟩, 2⟩ : Sim3 ℝ) ⟨by simp [Quat.normSq]; norm_num, by norm_num⟩ (by norm_num)
+  simpa using this
+/-- the same element through the public call with every optional argument left out, 4×4 -/
+example : convCall Mat3.det (.fromMatrix (some .Sim3)) 2 4 4 ⟨none, none, none⟩
+      [sliceD 4 4 (Sim3matrix (⟨⟨1,2,3⟩, ⟨0.6, 0, 0.8, 0⟩, 2⟩ : Sim3 ℝ))]
+    = .ok [Sim3.toList ⟨⟨1,2,3⟩, canonQ (1/100000) ⟨0.6, 0, 0.8, 0⟩, 2⟩] := by
+  have hat : (⟨none, none, none⟩ : CallArgs ℝ).effAtol = 1 / 100000 := by simp [CallArgs.effAtol, defAtol]
+  have := convCall_Sim3_roundtrip Mat3.det (fun _ => rfl) (.fromMatrix (some .Sim3)) (Or.inl rfl) 2 4 4 .m44 (le_refl 2)
+    (Or.inr (Or.inr ⟨rfl, rfl, rfl⟩)) ⟨none, none, none⟩ (by intro r h; cases h) (by intro t h; cases h)
+    [(⟨⟨1,2,3⟩, ⟨0.6, 0, 0.8, 0⟩, 2⟩ : Sim3 ℝ)]
+    (by intro X hX; rw [List.mem_singleton.mp hX]; exact ⟨by simp [Quat.normSq]; norm_num, by norm_num⟩)
+    (fun _ => ⟨(⟨⟨1,2,3⟩, ⟨0.6, 0, 0.8, 0⟩, 2⟩ : Sim3 ℝ), by simp, by rw [hat]; norm_num⟩)
+  rw [hat] at this
+  simpa using this
+/-- the observation `rank_test_is_batch_level`, concretely: identity rotation with scale `5·10⁻⁶ ≤ atol = 10⁻⁵` is refused alone … -/
+example : scaledRotBatch Mat3.det true (1/100000) (1/100000)
+      ([((⟨0,0,0,1⟩ : Quat ℝ), (1/200000 : ℝ))].map fun p => Mat3.smul p.2 (SO3matrix p.1)) = .error .notFullRank := by
+  rw [scaled_valid_rank_iff Mat3.det (fun _ => rfl) true _ _ (by norm_num) (by norm_num) (by norm_num) _ (by simp)]
+  · intro p hp; simp at hp; subst hp; norm_num
+  · intro p hp; simp at hp; subst hp; constructor
+    · simp [Quat.normSq]
+    · norm_num
+/-- a reflection is a `BadFor` item for every type: `fromMatrixBatch_rejects` / `convCall_rejects` have instances -/
+example : C11.BadRot Mat3.det (1/100000) (1/100000) (⟨⟨1, 0, 0⟩, ⟨0, 1, 0⟩, ⟨0, 0, -1⟩⟩ : Mat3 ℝ) := by
+  right
+  apply Bool.eq_false_iff.mpr; intro h
+  have := (detOk_iff _ _ _).mp h
+  revert this; lie_unfold; norm_num [abs_of_neg]
 
 end PP
